@@ -259,10 +259,18 @@ def _same(x, y):
     return False
 
 
+def _err_id(o):
+    return o.data[1] if (isinstance(o, Opaque) and o.kind == 'error' and o.data and o.data[0] == 'id') else None
+
+
 def merge_ref(g, a, b):
     """interfaces / opaque references: equal or (nil vs non-nil)"""
     if a is b:
         return a
+    if isinstance(a, Opaque) and isinstance(b, Opaque) and _err_id(a) is not None and _err_id(b) is not None:
+        return Opaque('error', ('id', int_ite(g, _err_id(a), _err_id(b), 64)))
+    if isinstance(a, Iface) and isinstance(b, Iface) and _err_id(a.val) is not None and _err_id(b.val) is not None:
+        return Iface(a.typ, Opaque('error', ('id', int_ite(g, _err_id(a.val), _err_id(b.val), 64))), b_ite(g, a.isnil, b.isnil))
     if isinstance(a, Opaque) and isinstance(b, Opaque) and a.kind == b.kind and a.data == b.data:
         return a
     # error-like interface values: keep a 'maybe nil' interface
